@@ -281,7 +281,7 @@ def gen_case(rng, sess, n_ops, npeers=3, chaos=0.0, limits=None, protocols=None)
         cands = []
         p = rng.choice(peers)
         # API calls
-        cands.append((3, lambda p=p: f"addknown {p} " + ",".join(rng.sample([addr(p, 0), addr(p, 1), addr(p, 2)], rng.choice([1, 1, 2])))))
+        cands.append((6 if protocols else 3, lambda p=p: f"addknown {p} " + ",".join(rng.sample([addr(p, 0), addr(p, 1), addr(p, 2)], rng.choice([1, 1, 2])))))
         cands.append((4, lambda p=p: f"dial {p} as={new_label()}"))
         cands.append((4, lambda p=p: f"dialaddr {addr(p, rng.randrange(3))} as={new_label()}"))
         # inbound sockets
